@@ -854,7 +854,7 @@ def expected_values(info) -> np.ndarray:
 def roundtrip_recipe(ctx, conv: str) -> dict:
     rng = ctx.rng
     recipe = G.random_recipe(rng, conv, 'quick')
-    recipe = G.attach_vars(rng, recipe, n_vars=4, dtypes=('f8', 'f8', 'i4', 'i4fill', 'i4missing'), with_nan=True)
+    recipe = G.attach_vars(rng, recipe, n_vars=4, dtypes=('f8', 'f8', 'f4', 'i4', 'i8', 'i4fill', 'i4missing'), with_nan=True)
     if conv == 'shoc_simple':
         # ShocSimple.topology reads attrs['standard_name'] of every (j, i) variable it meets before
         # the latitude (KeyError otherwise; recorded in DESIGN.md as outside the properties)
